@@ -198,6 +198,38 @@ claim("C07", "S3",
       "is C05); step >= 1.",
       "symbolic evaluation of the AST + exhaustive small-domain comparison with list slicing")
 
+claim("C20", "S2",
+      "Re-entrancy discipline of Subject (the quantifier is single-thread call histories incl. calls from inside "
+      "callbacks): snapshot iteration, state (cleared list, recorded exception) before call-out, path-enumerated "
+      "_subscribe_core (check first; live -> register + removing subscription; stopped -> exactly the terminal, inert "
+      "disposable), check_disposed before every public on_*, dispose, InnerSubscription removes exactly its observer once, "
+      "append-only registration. With C01's guard rules these are the facts the broadcast guarantee rests on.",
+      "is_stopped handling is C01's; foreign-thread races on `observers` are not this property's quantifier.",
+      "ast ordering (dominance) rules + path enumeration of _subscribe_core")
+
+claim("C21", "S2",
+      "BehaviorSubject: path-enumerated _subscribe_core (live: register then send self.value before returning; stopped: "
+      "terminal only), value stored under the lock before the delivery loop over a snapshot, value written only by "
+      "__init__/_on_next_core/dispose, other entry points inherited from Subject.",
+      "C20's rules for the inherited parts; value truthiness is C08.",
+      "ast path enumeration + dominance rules")
+
+claim("C22", "S2",
+      "ReplaySubject: path-enumerated _subscribe_core order (check, trim, register, replay queue in order, terminal, "
+      "activate) in one locked region; cores buffer/trim under the lock before delivering to a snapshot and activate "
+      "afterwards; trim bounds are `len > buffer_size` and `age > window` (inclusive retention) dropping from the front; "
+      "None defaults are identity tests; RemovableDisposable removes exactly its scheduled observer.",
+      "Exact retained contents for concrete timelines are not decided (S1 part); ScheduledObserver handshake is C32.",
+      "ast path enumeration + dominance + comparator normalisation")
+
+claim("C23", "S2",
+      "AsyncSubject: no delivery in _on_next_core (value + has_value stored under the lock); completion core snapshots, "
+      "clears, reads value/has_value into locals under the lock, then value iff has_value followed by completion to each "
+      "observer; late-subscriber paths enumerated (error -> only error; completed -> value iff has_value then completion); "
+      "error core inherited.",
+      "C20's rules for inherited parts; has_value is a flag (C08 decides no truthiness on value).",
+      "ast path enumeration + dominance rules")
+
 na("C15", "arithmetic over run-time timestamps (queue ordering by timestamp + duetime, 'exactly d later'); no structural "
           "clause that is both necessary and robust beyond ownership/guarding/falsy rules already decided under "
           "C02/C03/C08/C09, whose scope includes these files")
